@@ -306,6 +306,21 @@ def r32(ctx, repo, upd):
            "the per-feature filter is not reset: a widened range cannot "
            "re-admit events", node=resets[0] if resets else blk,
            label="feature filter reset")
+    # ... and unconditionally: also when the range became inactive or was
+    # removed (the reset must not sit under the activity test)
+    if resets:
+        under = None
+        n = resets[0].parent
+        while n is not None and not isinstance(n, ast.FunctionDef):
+            if isinstance(n, ast.If) and mname in names_in(n.test):
+                under = n
+            n = getattr(n, "parent", None)
+        ctx.ob("R3.2", under is None,
+               "the reset also runs when the range is inactive or removed"
+               if under is None else
+               "the reset only runs for an active range: a range that is "
+               "deactivated (min == max) or removed keeps its old selection",
+               node=resets[0], label="feature filter reset unconditional")
 
 
 def r33(ctx, repo, upd):
@@ -687,6 +702,11 @@ MUTANTS = [
       "                        feat_filt[disnan] = True\n"), "R3.2"),
     ("feature filter not reset", FILT,
      ("                feat_filt[:] = True\n", ""), "R3.2"),
+    ("feature filter reset only for active ranges (seeded C03_1)", FILT,
+     [("                feat_filt[:] = True\n", ""),
+      ("                if must_be_filtered:\n",
+       "                if must_be_filtered:\n"
+       "                    feat_filt[:] = True\n")], "R3.2"),
     ("manual dropped from conjunction", FILT,
      ("arr_all[:] = arr_box & arr_invalid & arr_polygon & self.manual",
       "arr_all[:] = arr_box & arr_invalid & arr_polygon"), "R3.3"),
